@@ -12,6 +12,7 @@ THEOREMS = ['MindsVerif.Props.C04.' + n for n in (
     'C04_identifier_partial', 'C04_identifier_mindsdb', 'C04_identifier_mysql', 'C04_identifier_sqlite',
     'C04_identifier_bq_generic', 'C04_identifier_bq_mindsdb', 'C04_identifier_bq_mysql', 'C04_identifier_bq_sqlite',
     'phi4_mindsdb', 'phi4_mysql', 'phi4_sqlite', 'phi4h_mindsdb', 'phi4h_mysql', 'phi4h_sqlite', 'C04_integer',
+    'C04_variable', 'C04_witness_variable',
     # history / regression examples: the codec before 2843e02 (Model/Lex.lean)
     'C04_decode_partial', 'C04_decode_dquote_partial', 'C04_decode_simple_partial', 'C04_encode_partial',
     'C04_roundtrip_mindsdb_partial', 'C04_roundtrip_simple_partial', 'C04_witness_roundtrip',
@@ -167,6 +168,29 @@ def probe_ident_plain(dialect, parts):
                 parts=list(parts), text=txt, got=list(got), classes=[], **{'class': 'ident-plain/%s/NEW' % dialect})
 
 
+def probe_variable(dialect, name, system):
+    """P6: Variable(name).to_string() is read back as the same variable (name, user/system, no alias)"""
+    from mindsdb_sql.parser.ast import Variable
+    txt = Variable(name, is_system_var=system).to_string()
+    got = lexh.observe_variable(dialect, txt)
+    if got == ('var', system, name):
+        return None
+    return dict(kind='variable', desc='Variable(%r, is_system_var=%r) prints %r, read back as %r' % (name, system, txt, got),
+                dialect=dialect, name=name, system=system, text=txt, got=list(got), classes=[],
+                **{'class': 'variable/%s/NEW' % dialect})
+
+
+def probe_variable_source(dialect, name, system, style):
+    """P6b: a variable written bare or in one of the three quote styles denotes its name"""
+    txt = ('@@' if system else '@') + (name if style == '' else style + name + style)
+    got = lexh.observe_variable(dialect, txt)
+    if got == ('var', system, name):
+        return None
+    return dict(kind='variable-source', desc='variable text %r is read as %r, denotes %r' % (txt, got, name), dialect=dialect,
+                name=name, system=system, style=style, text=txt, got=list(got), classes=[],
+                **{'class': 'variable-source/%s/NEW' % dialect})
+
+
 def probe_number(dialect, v):
     """P5: numbers print to text that reads back as exactly the same number (same type; floats bit-exact)"""
     from mindsdb_sql.parser.ast import Constant
@@ -305,6 +329,16 @@ def run(chk):
     for t in num_texts:
         for d in DIALECTS:
             ask(('num', d, t), 'num %s %s' % (d, enc(t)))
+    # variable names: printer model vs Variable.to_string, print-then-lex model vs parse_sql (mysql, mindsdb)
+    VAR_NAMES = ['var1', 'utf8mb4', 'p2', 'q.2', 'a b', 'x1y', 'a1', 'A_1', '1a', 'a`b', 'a"`', 'a\'"`', 'sql_mode', 'session.auto',
+                 '$x', '.x', 'a-b', 'a@b', '@a', 'a\nb', 'v9', 'x_1.y2', 'a' * 12 + '7', 'ı1', 'İx', '\u212a9', 'éa', 'aé', 'a ', ' a']
+    VAR_NAMES += list(lexh.strings_upto(2 if quick else 3, alphabet=['a', 'B', '1', '_', '.', '$', ' ', '`', '"', "'", 'é', 'ı']))
+    rngv = common.rng_for(chk.seed, 'C04/var')
+    VAR_NAMES += [lexh.random_string(rngv, 3, 8, alphabet=['a', 'Z', '0', '9', '_', '.', '$', ' ', '`', '"', "'", 'x']) for _ in range(150 if quick else 4000)]
+    for nm in VAR_NAMES:
+        for sysv in (False, True):
+            ask(('varstr', nm, sysv), 'varstr %s %s' % ('sys' if sysv else '-', enc(nm)))
+            ask(('varrt', nm, sysv), 'varrt %s %s' % ('sys' if sysv else '-', enc(nm)))
     # variables
     var_texts = ['@a', '@a.b', "@'a b'", '@`a b`', '@"a"', '@@x', "@@'a'", '@1', "@'1'", '@', "@'a", '@a$', "@'a''", '@ıf']
     for t in var_texts:
@@ -317,7 +351,8 @@ def run(chk):
         chk.oblige('corr:driver', 'correspondence', False, 'driver failed: %s' % e)
 
     # ---------------------------------------------------------------- compare with the real code
-    corr = {k: [0, 0, None] for k in ('scan', 'spec', 'decode', 'encode', 'ident-print', 'ident-lex', 'number', 'variable')}
+    corr = {k: [0, 0, None] for k in ('scan', 'spec', 'decode', 'encode', 'ident-print', 'ident-lex', 'number', 'variable',
+                                         'variable-print', 'variable-roundtrip')}
 
     def diverge(name, info):
         c = corr[name]
@@ -438,6 +473,38 @@ def run(chk):
                     impl = ('FLOAT', tok[1], text[tok[2]:])
                 if model != impl:
                     diverge('number', dict(dialect=d, text=text, model=o, impl=impl))
+            elif kind == 'varstr':
+                from mindsdb_sql.parser.ast import Variable
+                _, nm, sysv = meta
+                corr['variable-print'][0] += 1
+                real = Variable(nm, is_system_var=sysv).to_string()
+                if enc(real) != o:
+                    diverge('variable-print', dict(name=nm, system=sysv, model=dec(o), impl=real))
+            elif kind == 'varrt':
+                from mindsdb_sql.parser.ast import Variable
+                _, nm, sysv = meta
+                real = Variable(nm, is_system_var=sysv).to_string()
+                m = o.split(' ')
+                model = ('var', m[1] == 'true', dec(m[2])) if m[0] == 'some' and dec(m[3]) == '' else None
+                for vd in ('mysql', 'mindsdb'):
+                    corr['variable-roundtrip'][0] += 1
+                    chk.count(('varrt', vd, nm, sysv))
+                    got = lexh.observe_variable(vd, real)
+                    if model is not None and got != model:
+                        diverge('variable-roundtrip', dict(dialect=vd, name=nm, system=sysv, text=real, model=o, impl=list(got)))
+                    elif model is None and got[0] == 'var' and got[2] == nm:
+                        diverge('variable-roundtrip', dict(dialect=vd, name=nm, system=sysv, text=real, model=o, impl=list(got)))
+                    if lexh.var_ok(nm):
+                        f = probe_variable(vd, nm, sysv)
+                        bump('P6/%s/%s' % (vd, 'fail' if f else 'ok'))
+                        if f:
+                            record(f)
+                        if len(nm) <= 4 or not quick:
+                            for style in ('', "'", '`', '"'):
+                                if (style == '' and re.fullmatch(r'[a-zA-Z_.$]+', nm)) or (style and style not in nm):
+                                    f = probe_variable_source(vd, nm, sysv, style)
+                                    if f:
+                                        record(f)
             elif kind == 'var':
                 text = meta[1]
                 corr['variable'][0] += 1
@@ -551,6 +618,10 @@ def replay_witness(w, kfwords=None):
         return probe_ident_source(w['dialect'], w['parts'])
     if kind == 'number':
         return probe_number(w['dialect'], w['value'])
+    if kind == 'variable':
+        return probe_variable(w['dialect'], w['name'], w['system'])
+    if kind == 'variable-source':
+        return probe_variable_source(w['dialect'], w['name'], w['system'], w['style'])
     if kind == 'ident-plain':
         return probe_ident_plain(w['dialect'], w['parts'])
     if kind == 'number-source':
